@@ -658,7 +658,10 @@ func escAttr(r *vh.Rng, st *xstats, q byte) (dec, raw string) {
 			s.WriteString(r.PickStr(">", "&gt;"))
 		case 8:
 			d.WriteString("\t\r")
-			s.WriteString("\t&#13;")
+			s.WriteString("\t" + r.PickStr("&#13;", "&#xD;", "&#xd;", "&#x0D;"))
+		case 9:
+			d.WriteString("\r\n")
+			s.WriteString(r.PickStr("&#13;&#10;", "&#xD;&#xA;", "&#13;\n"))
 		default:
 			w := r.PickStr("v", "abc", "1", "x y", "😀", "urn:a")
 			d.WriteString(w)
@@ -711,7 +714,11 @@ func genText(r *vh.Rng, st *xstats, wsOnly bool) *xn {
 			s.WriteString("\rz")
 		case 6:
 			d.WriteString("\r")
-			s.WriteString("&#13;")
+			s.WriteString(r.PickStr("&#13;", "&#xD;", "&#xd;", "&#x0D;"))
+			st.entities++
+		case 10:
+			d.WriteString("a\r\nb")
+			s.WriteString(r.PickStr("a&#13;&#10;b", "a&#xD;&#xA;b", "a&#13;\r\nb"))
 			st.entities++
 		case 7:
 			d.WriteString("é中😀")
@@ -1124,5 +1131,18 @@ func bigXMLDocs(r *vh.Rng, sum *vh.Summary, cw *vh.CaseWriter) {
 			runXML(sum, nil, min, nil, false)
 			shrunkFrom = ""
 		}
+	}
+}
+
+// crDocs: every run, carriage returns written as character references (&#13; &#xD;) in text and in
+// attribute values, next to literal CR / CRLF (which the decoder normalises to LF) and CDATA.
+func crDocs(sum *vh.Summary, cw *vh.CaseWriter) {
+	for _, text := range []string{
+		"<r a=\"x&#13;&#10;y&#xD;z\" b='&#xd;'>p&#13;&#10;q&#xD;z\r\nw\rv<![CDATA[c\r\nd]]>&#13;</r>",
+		"<r><a>&#13;</a><b>&#xD;&#xA;</b><c k=\"&#13;\"/>&#x0D;\r\n&#13;\n</r>",
+	} {
+		sum.Count("xml:"+text, true)
+		sum.Hist("xml:fixed-cr-reference-doc")
+		runXML(sum, cw, text, nil, false)
 	}
 }
